@@ -51,7 +51,7 @@ def mentions_app(v, path):
 def r17_2(ctx):
     out = []
     T = tags_of(ctx)
-    key = ctx.key_of('raw_cache::prune')
+    key = ctx.helper('raw_cache::prune')
     q = ctx.explore(key)
     B, sites = candidate_push_edges(ctx, q)
     if not B:
